@@ -1098,6 +1098,22 @@ namespace chaiscript {
           }
         }
 
+        /// Finalizes an escape sequence still pending at the end of the literal.
+        /// Unlike the destructor this reports a malformed sequence to the caller.
+        void finish() {
+          if (is_octal) {
+            process_octal();
+          }
+
+          if (is_hex) {
+            process_hex();
+          }
+
+          if (unicode_size > 0) {
+            process_unicode();
+          }
+        }
+
         void process_hex() {
           if (!hex_matches.empty()) {
             auto val = stoll(hex_matches, nullptr, 16);
@@ -1119,8 +1135,8 @@ namespace chaiscript {
         }
 
         void process_unicode() {
-          const auto ch = static_cast<uint32_t>(std::stoi(hex_matches, nullptr, 16));
-          const auto match_size = hex_matches.size();
+          const auto digits = std::move(hex_matches);
+          const auto match_size = digits.size();
           hex_matches.clear();
           is_escaped = false;
           const auto u_size = unicode_size;
@@ -1130,6 +1146,8 @@ namespace chaiscript {
           if (u_size != match_size) {
             throw exception::eval_error("Incomplete unicode escape sequence");
           }
+          // exactly 4 or 8 hex digits at this point: always convertible, always fits
+          const auto ch = static_cast<uint32_t>(std::stoul(digits, nullptr, 16));
           if (u_size == 4 && ch >= 0xD800 && ch <= 0xDFFF) {
             throw exception::eval_error("Invalid 16 bit universal character");
           }
@@ -1344,6 +1362,12 @@ namespace chaiscript {
               }
             }
 
+            try {
+              cparser.finish();
+            } catch (const exception::eval_error &e) {
+              throw exception::eval_error(e.reason, File_Position(start.line, start.col), *m_filename);
+            }
+
             if (cparser.saw_interpolation_marker) {
               match.push_back('$');
             }
@@ -1406,6 +1430,12 @@ namespace chaiscript {
 
             for (auto s = start + 1, end = m_position - 1; s != end; ++s) {
               cparser.parse(*s, start.line, start.col, *m_filename);
+            }
+
+            try {
+              cparser.finish();
+            } catch (const exception::eval_error &e) {
+              throw exception::eval_error(e.reason, File_Position(start.line, start.col), *m_filename);
             }
           }
 
